@@ -5,6 +5,7 @@ CONSTANTS
   HistVals = {"v100"}
   HistCounts = {1}
   GaugeOps = {"set"}
+  RecHows = {"loop"}
 SPECIFICATION Spec
 INVARIANT Emit
 INVARIANT UnitInv
